@@ -114,6 +114,49 @@ def run(replay=None):
                 n2 = step(n1, t1)
                 if n2 is not None and rq.random() < (0.2 if thorough else 0.03):
                     step(n2, rq.choice(allv))
+    # narrowing at construction: a child whose stored type set is s, put into a slot whose declared parameter type is P,
+    # is stored in the new node with type s /\ P (or the constructor raises a type error) - for every s and every kind of slot
+    from hpl.ast import expressions as E
+
+    def lit(v):
+        return call_parser('expression', v)[1]
+    P = {n: getattr(DataType, n) for n in ('BOOL', 'NUMBER', 'STRING', 'ARRAY', 'RANGE', 'SET', 'MESSAGE')}
+    PRIM, COMP = DataType.PRIMITIVE, DataType.COMPOUND
+    slots = [
+        ('set element', PRIM, lambda c: E.HplSet((c, lit('1'))).values[0]),
+        ('range lower bound', P['NUMBER'], lambda c: E.HplRange(c, lit('1')).min_value),
+        ('range upper bound', P['NUMBER'], lambda c: E.HplRange(lit('1'), c).max_value),
+        ('index', P['NUMBER'], lambda c: E.HplArrayAccess(lit('xs'), c).index),
+        ('indexed array', P['ARRAY'], lambda c: E.HplArrayAccess(c, lit('0')).array),
+        ('field owner', P['MESSAGE'], lambda c: E.HplFieldAccess(c, 'f').message),
+        ('operand of not', P['BOOL'], lambda c: E.HplUnaryOperator('not', c).operand),
+        ('operand of unary minus', P['NUMBER'], lambda c: E.HplUnaryOperator('-', c).operand),
+        ('left operand of +', P['NUMBER'], lambda c: E.HplBinaryOperator('+', c, lit('1')).operand1),
+        ('right operand of <', P['NUMBER'], lambda c: E.HplBinaryOperator('<', lit('1'), c).operand2),
+        ('left operand of and', P['BOOL'], lambda c: E.HplBinaryOperator('and', c, lit('p')).operand1),
+        ('left operand of in', PRIM, lambda c: E.HplBinaryOperator('in', c, lit('{1, 2}')).operand1),
+        ('right operand of in', COMP, lambda c: E.HplBinaryOperator('in', lit('1'), c).operand2),
+        ('argument of abs', P['NUMBER'], lambda c: E.HplFunctionCall('abs', (c,)).arguments[0]),
+        ('quantifier domain', COMP, lambda c: E.HplQuantifier('forall', 'k', c, lit('@k > 0')).domain),
+    ]
+    try:
+        base = lit('@v')
+        for sname, ptype, build in slots:
+            for s1 in allv:
+                try:
+                    child = base.cast(s1)
+                except Exception:  # noqa  (s1 shares nothing with what a variable can be: no such child)
+                    continue
+                ev = {'op': 'expr_cast', 'slot': sname, 's': names(child.data_type, DataType), 't': names(ptype, DataType), 'r': []}
+                try:
+                    r2 = build(child)
+                    ev['out'] = 'ok'
+                    ev['r'] = names(r2.data_type, DataType)
+                except Exception as e:  # noqa
+                    ev['out'] = type(e).__name__
+                add(ev)
+    except Exception as e:  # noqa
+        rep.skip('slot narrowing not driven: %s' % type(e).__name__)
     # unions: all pairs, plus triples (sampled in quick, more in thorough)
     for s in allv:
         for t in allv:
